@@ -201,6 +201,8 @@ def trace_to_scenario(lines):
             steps.append({"e": "b", "bytes": e["bytes"]})
         elif k == "drop":
             steps.append({"e": "drop"})
+        elif k == "setid":
+            steps.append({"e": "setid", "id": e["id"]})
     return {"cfg": cfg, "steps": steps}
 
 
